@@ -220,6 +220,8 @@ func (s *connectionWorker) serve(ctx context.Context, session *sessions.Session)
 	}
 	cancel()
 	s.manager.shutdownSession(ctx, session)
+	// the session is over, whatever the cause: do not leave the client on a dead socket
+	session.Close()
 	verifSessionEnded(session.ID())
 }
 
